@@ -103,6 +103,12 @@ def main():
                     t = {"Outputs": {"O": {"Value": v}}, "Resources": {}}
                 elif w == "description":
                     t = {"Description": v, "Resources": {}}
+                elif w == "ip-property":
+                    t = {"Resources": {"R": {"Type": "AWS::EC2::SecurityGroupIngress", "Properties": {"GroupId": "g", "IpProtocol": "tcp", "CidrIp": v, "CidrIpv6": v}}}}
+                elif w == "ip-condition":
+                    t = {"Resources": {"R": {"Type": "AWS::IAM::ManagedPolicy", "Properties": {"PolicyDocument": {"Statement": [{"Effect": "Allow", "Action": "s3:*", "Resource": "*", "Condition": {"IpAddress": {"aws:SourceIp": v}}}]}}}}}
+                elif w == "typed-leaf-slots":
+                    t = {"Resources": {"R": {"Type": "AWS::KMS::Key", "Properties": {"KeyPolicy": {"Version": v, "Statement": [{"Effect": "Allow", "Action": "kms:*", "Resource": "*", "Condition": {"Bool": {"k": v}, "DateLessThan": {"k": v}, "NumericEquals": {"k": v}, "BinaryEquals": {"k": v}}}]}, "EnableKeyRotation": v, "PendingWindowInDays": v}}}}
                 elif w == "json-text":
                     text = ("[" * op["depth"] + "]" * op["depth"]) if op["kind"] == "arr" else ('{"a":' * op["depth"] + "1" + "}" * op["depth"])
                     t = {"Resources": {"R": {"Type": "Custom::Deep", "Properties": {"P": text, "L": [text]}}}}
